@@ -38,7 +38,12 @@ pub fn run_cli_flags(args: &Args, property: &str) -> Report {
         cfg.recursive = rng.chance(2, 3);
         // flags in varying order, with and without -q (neither changes what is computed)
         let mut flags: Vec<String> = vec![];
-        let quiet = rng.chance(3, 4);
+        // -q, nothing, or -v: the verbosity changes what is printed, never what is computed
+        let verb = rng.below(6);
+        let quiet = verb < 4;
+        if verb == 5 {
+            flags.push(if rng.chance(1, 2) { "-v".into() } else { "--verbose".into() });
+        }
         let jflag = vec!["-j".to_string(), cfg.threads.to_string()];
         match rng.below(3) {
             0 => {
